@@ -1,6 +1,7 @@
 package run
 
 import (
+	"reflect"
 	"bytes"
 	"context"
 	"fmt"
@@ -42,6 +43,7 @@ type Sched struct {
 	OnlyPark map[string]bool   // when set: only these points park; the others pass through
 	mapIDs   map[string]int    // type map identity -> small id
 	MapsOf   map[string]map[int]bool // actor -> ids of the type maps it encoded with
+	PartsOf  map[string]map[int]bool // actor -> ids of the internal tables of those maps
 	ParkOnce map[string]string       // actor -> a point at which it parks once more (then the entry is removed)
 }
 
@@ -88,20 +90,30 @@ func (s *Sched) Hook(point string, subject any) {
 		delete(s.ParkOnce, actor) // park here, this once
 	} else if s.OnlyPark != nil && !s.OnlyPark[point] {
 		if point == "encode.enter" {
-			key := fmt.Sprintf("%p", subject)
 			if s.mapIDs == nil {
 				s.mapIDs = map[string]int{}
 				s.MapsOf = map[string]map[int]bool{}
 			}
-			id, ok := s.mapIDs[key]
-			if !ok {
-				id = len(s.mapIDs) + 1
-				s.mapIDs[key] = id
+			// identity of the type map AND of each of its internal tables: a copy of the struct that still
+			// shares its tables is shared state all the same
+			for i, key := range mapParts(subject) {
+				id, ok := s.mapIDs[key]
+				if !ok {
+					id = len(s.mapIDs) + 1
+					s.mapIDs[key] = id
+				}
+				dst := s.MapsOf
+				if i > 0 {
+					if s.PartsOf == nil {
+						s.PartsOf = map[string]map[int]bool{}
+					}
+					dst = s.PartsOf
+				}
+				if dst[actor] == nil {
+					dst[actor] = map[int]bool{}
+				}
+				dst[actor][id] = true
 			}
-			if s.MapsOf[actor] == nil {
-				s.MapsOf[actor] = map[int]bool{}
-			}
-			s.MapsOf[actor][id] = true
 		}
 		s.mu.Unlock()
 		return
@@ -527,4 +539,29 @@ func PlaySched(beh M) ([]M, error) {
 		out = append(out, M{"k": "final", "allret": final["allret"], "served": final["served"]})
 	}
 	return out, nil
+}
+
+// mapParts names the identity of a type map and of the mutable tables inside it
+// (maps and non-empty slices of the struct, found by reflection).
+func mapParts(subject any) []string {
+	keys := []string{fmt.Sprintf("%p", subject)}
+	v := reflect.ValueOf(subject)
+	if v.Kind() != reflect.Ptr || v.IsNil() || v.Elem().Kind() != reflect.Struct {
+		return keys
+	}
+	e := v.Elem()
+	for i := 0; i < e.NumField(); i++ {
+		f := e.Field(i)
+		switch f.Kind() {
+		case reflect.Map, reflect.Ptr:
+			if f.Pointer() != 0 {
+				keys = append(keys, fmt.Sprintf("%s@%x", e.Type().Field(i).Name, f.Pointer()))
+			}
+		case reflect.Slice:
+			if f.Cap() > 0 {
+				keys = append(keys, fmt.Sprintf("%s@%x", e.Type().Field(i).Name, f.Pointer()))
+			}
+		}
+	}
+	return keys
 }
